@@ -9,6 +9,7 @@ integer handles; bytes travel as lowercase hex (`-` for the empty string).
   td new|get|reset|rtr|next|hv|hvs|gv|val|seek|slot|err|se|rel h ...
   de new|reset|add|bytes h ...                  dd new|reset|hasnext|next h ...
   fe new|reset|add|from|marshal|msize|size h ...   fd new|get|unm|at|blk|size|width|rel h ...
+  cw new h | fill h b hex | write h b n | cut h      (snappy chunk writer + the caller's row buffers)
 -/
 import LinVerif.Util.Proto
 import LinVerif.Util.Map
@@ -16,6 +17,8 @@ import LinVerif.Model.Tsd
 import LinVerif.Model.DeltaPack
 import LinVerif.Model.FixedOffset
 import LinVerif.Model.Stream
+import LinVerif.Model.StreamExt
+import LinVerif.Model.BufAlias
 
 namespace LinVerif.Driver.C14
 open LinVerif LinVerif.Bits LinVerif.Varint
@@ -69,6 +72,8 @@ structure St where
   sr : List (Nat × Stream.Reader) := []
   tsw : List (Nat × Stream.Writer) := []
   tsr : List (Nat × (Stream.TsdStreamReader × Nat)) := []
+  cw : List (Nat × BufAlias.World) := []
+  swm : List (Nat × Nat) := []   -- handles of `sw` that are SliceWriters: maxLen
 
 def bad (st : St) : St × String := (st, "bad-op")
 
@@ -106,6 +111,14 @@ def stepPure (ws : List String) : Option String :=
     let x ← n.toNat?
     if x ≥ two64 then none else
     some s!"{uvariantSize x}"
+  | ["tdt", h] => do
+    let bs ← unhex h
+    match Tsd.decodeTSDTime bs with
+    | some (a, b) => some s!"{a} {b}"
+    | none => some "panic"
+  | ["b2u", h] => do
+    let bs ← unhex h
+    some s!"{FixedOffset.byteSlice2Uint32 bs}"
   | ["mw", n] => do
     let x ← n.toNat?
     if x ≥ two32 then none else
@@ -377,6 +390,9 @@ def stepFe (st : St) (ws : List String) : St × String :=
           | some vs => ({ st with fe := Map.upsert st.fe h (e.fromValues vs) }, "ok")
           | none => bad st
         | "marshal", [] => (st, hex e.marshal)
+        | "write", [k] => match k.toNat? with
+          | some k => let (cs, err) := e.writeTo k; (st, s!"{hex cs.flatten} {showB err}")
+          | none => bad st
         | "msize", [] => (st, s!"{e.marshalSize}")
         | "size", [] => (st, s!"{e.values.length}")
         | _, _ => bad st
@@ -439,8 +455,13 @@ def stepSw (st : St) (ws : List String) : St × String :=
   match ws with
   | ["new", h] =>
     match h.toNat? with
-    | some h => ({ st with sw := Map.upsert st.sw h Stream.Writer.fresh }, hex [])
+    | some h => ({ st with sw := Map.upsert st.sw h Stream.Writer.fresh, swm := Map.erase st.swm h }, hex [])
     | none => bad st
+  | ["newslice", h, m] =>
+    -- `NewSliceWriter(make([]byte, m))`
+    match h.toNat?, m.toNat? with
+    | some h, some m => ({ st with sw := Map.upsert st.sw h Stream.Writer.fresh, swm := Map.upsert st.swm h m }, hex [])
+    | _, _ => bad st
   | op :: h :: args =>
     match h.toNat? with
     | none => bad st
@@ -450,6 +471,31 @@ def stepSw (st : St) (ws : List String) : St × String :=
       | some w =>
         let fin (w' : Stream.Writer) : St × String := ({ st with sw := Map.upsert st.sw h w' }, hex w'.buf)
         match op, args with
+        | "i16", [v] => match v.toInt? with
+          | some v => if v < -32768 ∨ v ≥ 32768 then bad st else fin (w.putInt16 v)
+          | none => bad st
+        | "i32", [v] => match v.toInt? with
+          | some v => if v < -(two31 : Int) ∨ v ≥ (two31 : Int) then bad st else fin (w.putInt32 v)
+          | none => bad st
+        | "i64", [v] => match v.toInt? with
+          | some v => if v < -(two63 : Int) ∨ v ≥ (two63 : Int) then bad st else fin (w.putInt64 v)
+          | none => bad st
+        | "len", [] => (st, s!"{w.len}")
+        | "switch", [d] => match unhex d with
+          | some d => match Map.lookup st.swm h with
+            | some _ => bad st     -- SliceWriter has no SwitchBuffer
+            | none => fin (w.switchBuffer d)
+          | none => bad st
+        | "err", [] => match Map.lookup st.swm h with
+          | some m => (st, showB (Stream.SliceWriter.error ⟨w, m⟩))
+          | none => (st, "false")
+        | "backing", [d] => match unhex d, Map.lookup st.swm h with
+          | some d, some m =>
+            if d.length ≠ m then bad st else
+            match Stream.SliceWriter.backing ⟨w, m⟩ d with
+            | some arr => (st, hex arr)
+            | none => (st, "moved")
+          | _, _ => bad st
         | "byte", [b] => match b.toNat? with
           | some b => if b < 256 then fin (w.putByte b) else bad st
           | none => bad st
@@ -501,6 +547,10 @@ def stepSr (st : St) (ws : List String) : St × String :=
         | "uv32", [] => let (v, r') := r.readUvarint32; fin s!"{v}" r'
         | "sv64", [] => let (v, r') := r.readVarint64; fin s!"{v}" r'
         | "sv32", [] => let (v, r') := r.readVarint32; fin s!"{v}" r'
+        | "i16", [] => let (v, r') := r.readInt16; fin s!"{v}" r'
+        | "i32", [] => let (v, r') := r.readInt32; fin s!"{v}" r'
+        | "i64", [] => let (v, r') := r.readInt64; fin s!"{v}" r'
+        | "seek", [] => fin "-" r.seekStart
         | "unread", [] => fin (hex r.unreadSlice) r
         | "state", [] => fin "-" r
         | "bytes", [n] => match n.toInt? with
@@ -570,8 +620,48 @@ def stepTsr (st : St) (ws : List String) : St × String :=
         else bad st
   | _ => bad st
 
+/-- `cw new h | fill h b hex | write h b n | cut h`: the snappy chunk writer (`snappyWriter.Write/Close/Bytes`
+followed by `Uncompress`, which by the library contract returns the chunk's plain text) and the caller's row
+buffers. Whether `Write` copies or keeps the slice is what the SOURCE says now (`BufAlias.snappyWriteSem`); a
+sink without known semantics answers `bad-op`. -/
+def stepCw (st : St) (ws : List String) : St × String :=
+  match BufAlias.snappyWriteSem with
+  | none => bad st
+  | some sem =>
+    match ws with
+    | ["new", h] =>
+      match h.toNat? with
+      | some h => ({ st with cw := Map.upsert st.cw h {} }, "ok")
+      | none => bad st
+    | ["fill", h, b, d] =>
+      match h.toNat?, b.toNat?, unhex d with
+      | some h, some b, some d =>
+        match Map.lookup st.cw h with
+        | some w => ({ st with cw := Map.upsert st.cw h (w.fill b d) }, "ok")
+        | none => bad st
+      | _, _, _ => bad st
+    | ["write", h, b, n] =>
+      match h.toNat?, b.toNat?, n.toNat? with
+      | some h, some b, some n =>
+        match Map.lookup st.cw h with
+        | some w =>
+          match w.write sem b n with
+          | some w' => ({ st with cw := Map.upsert st.cw h w' }, s!"{n} nil")
+          | none => bad st
+        | none => bad st
+      | _, _, _ => bad st
+    | ["cut", h] =>
+      match h.toNat? with
+      | some h =>
+        match Map.lookup st.cw h with
+        | some w => ({ st with cw := Map.upsert st.cw h w.cut.2 }, hex w.cut.1)
+        | none => bad st
+      | none => bad st
+    | _ => bad st
+
 def step (st : St) (ws : List String) : St × String :=
   match ws with
+  | "cw" :: rest => stepCw st rest
   | "bw" :: rest => stepBw st rest
   | "br" :: rest => stepBr st rest
   | "xe" :: rest => stepXe st rest
